@@ -3,6 +3,7 @@ package google
 import (
 	"archive/zip"
 	"bytes"
+	"encoding/base64"
 	"encoding/binary"
 	"encoding/hex"
 	"encoding/json"
@@ -70,8 +71,14 @@ func (p *defaultProvider) FetchAndParse() (*CRLSet, error) {
 // Check - Given a parsed CRLSet, check if a given cert is present
 func (crlSet *CRLSet) Check(cert *x509.Certificate, issuerSPKIHash string) *Entry {
 	// check for BlockedSPKIs first
+	// (the set lists blocked SPKI hashes in base64; issuerSPKIHash is the hex
+	// form that keys the issuer lists)
 	for _, spki := range crlSet.BlockedSPKIs {
-		if issuerSPKIHash == spki {
+		blocked := issuerSPKIHash == spki
+		if raw, err := base64.StdEncoding.DecodeString(spki); err == nil && hex.EncodeToString(raw) == issuerSPKIHash {
+			blocked = true
+		}
+		if blocked {
 			return &Entry{
 				SerialNumber: cert.SerialNumber,
 			}
